@@ -190,7 +190,7 @@ class UpnpEventHandler:
         # do SUBSCRIBE request
         headers = {
             "NT": "upnp:event",
-            "TIMEOUT": "Second-" + str(timeout.seconds),
+            "TIMEOUT": "Second-" + str(int(timeout.total_seconds())),
             "HOST": urlparse(service.event_sub_url).netloc,
             "CALLBACK": f"<{self.callback_url}>",
         }
@@ -245,7 +245,7 @@ class UpnpEventHandler:
         headers = {
             "HOST": urlparse(service.event_sub_url).netloc,
             "SID": sid,
-            "TIMEOUT": "Second-" + str(timeout.seconds),
+            "TIMEOUT": "Second-" + str(int(timeout.total_seconds())),
         }
         response_status, response_headers, _ = await self._requester.async_http_request(
             "SUBSCRIBE", service.event_sub_url, headers
